@@ -87,7 +87,7 @@ Definition npt_unmarshal (s : list N) : option Z :=
       match parse_float sc with
       | None => None
       | Some x =>
-        let ns := to_int64 (dmul_int x E9) in
+        let ns := to_int64_round (dmul_int x E9) in     (* time.Duration(math.Round(seconds*1e9)), /repo ffeb757 *)
         let hm := (mins * 60 + hours * 3600) mod P64 in
         Some (wrap64 (ns + wrap64 (s64z (Z.of_N hm) * Z.of_N E9)))
       end
@@ -184,12 +184,20 @@ Definition start_end {A} (f : list N -> option A) (v : list N) : option (A * opt
 
 Definition gstate := (option range_value * option utc)%type.   (* h.Value (specFound), h.Time *)
 
+(* /repo bf6ff68: a second smpte / npt / clock key is an error once specFound *)
+Definition unit_step {A} (val : option range_value) (tm : option utc) (mk : A -> option A -> range_value)
+                     (r : option (A * option A)) : option gstate :=
+  match val with
+  | Some _ => None
+  | None => option_map (fun p => (Some (mk (fst p) (snd p)), tm)) r
+  end.
+
 Definition gstep (st : gstate) (e : kv) : option gstate :=
   let '(val, tm) := st in
   let '(k, v) := e in
-  if list_eqb k K_smpte then option_map (fun p => (Some (RSmpte (fst p) (snd p)), tm)) (start_end smpte_unmarshal v)
-  else if list_eqb k K_npt then option_map (fun p => (Some (RNpt (fst p) (snd p)), tm)) (start_end npt_unmarshal v)
-  else if list_eqb k K_clock then option_map (fun p => (Some (RUtc (fst p) (snd p)), tm)) (start_end utc_unmarshal v)
+  if list_eqb k K_smpte then unit_step val tm RSmpte (start_end smpte_unmarshal v)
+  else if list_eqb k K_npt then unit_step val tm RNpt (start_end npt_unmarshal v)
+  else if list_eqb k K_clock then unit_step val tm RUtc (start_end utc_unmarshal v)
   else if list_eqb k K_time then option_map (fun t => (val, Some t)) (utc_unmarshal v)
   else Some st.
 
